@@ -15,8 +15,17 @@ import random
 import time
 from collections import Counter
 
-from .common import (Report, TRUSTED_BASE, VERIF, check_props_file, eval_cases, load_known,
+from .common import (COQ, REPO, Report, TRUSTED_BASE, VERIF, check_props_file, eval_cases, load_known,
                      make_coq, scan_forbidden)
+from .translate import srcspecs
+from .translate.srcspecs import SPECS as SRC_SPECS
+
+
+def regen_source():
+    """tie C: rewrite coq/Gen/Source.v from the Python sources of the tree under test (only when
+    its content changes, so the build stays incremental).  Returns {function: why not translated}."""
+    errors, _ = srcspecs.regenerate(REPO, COQ)
+    return errors
 
 
 class Family:
@@ -164,6 +173,8 @@ class Check:
         have_known = {k["sig"] for k in known}
 
         pre_note = self.pre_build() if self.pre_build else None
+        # tie C: re-translate the source text of the tree under test into coq/Gen/Source.v
+        src_errors = regen_source()
         ok, out, build_s = make_coq()
         # the property's theorem file is re-checked by coqc against the freshly built dependencies;
         # it fails if anything it depends on failed to build
@@ -292,6 +303,10 @@ class Check:
             disagreements_checked=tot["corr_bad"], correspondence_disagreements=tot["corr_bad"],
             oracle_failures_attributed_to_known_findings=tot["attributed"],
             parts=cov_parts, build_s=round(build_s, 1), regenerated_facts=pre_note,
+            source_translation=dict(file="coq/Gen/Source.v", translator="harness/translate/pysrc.py",
+                                    functions=[sp["name"] for sp in SRC_SPECS],
+                                    untranslatable=src_errors,
+                                    equivalence_proofs="coq/Proofs/GenEq.v (generated definition = model, all inputs)"),
             explanation=f"theorems of Props/{self.prop}.v re-checked by coqc on this run; the Gallina model is tied to "
                         f"/repo by evaluating it (vm_compute) on the same cases the implementation ran; the oracle is the "
                         f"executable spec applied to the implementation's output")
